@@ -28,7 +28,8 @@ def build_tree(base, spec):
                 'big': (('%d:%s' % (ri, rel)).encode('utf8') + b'\n') * 3000}[kind]
         with open(full, 'wb') as f:
             f.write(data)
-        os.utime(full, (1500000000 + len(rel), 1500000000 + len(rel)))      # same date in every root: one If-Modified-Since verdict per request
+        t0 = spec.get('mtime_base', 1500000000)     # 2017, or (clock skew, unpacked archives) a date AHEAD of the server's clock
+        os.utime(full, (t0 + len(rel), t0 + len(rel)))      # same date in every root: one If-Modified-Since verdict per request
         files[full] = data
     for ri in range(len(spec['roots'])):
         os.makedirs(os.path.join(base, spec['roots'][ri]), exist_ok=True)
@@ -316,6 +317,7 @@ def gen_case(rng, tier):
     for rel in rels:
         reqs.append({'path': '/' + rel, 'ims': None, 'fault': None, 'errno': 'EIO'})
         reqs.append({'path': '/' + rel, 'ims': 'at', 'fault': None, 'errno': 'EIO'})
+    tree['mtime_base'] = rng.choice([1500000000, 1500000000, 4102444800])
     return {'tree': tree, 'mount': mount, 'requests': reqs}
 
 
